@@ -30,7 +30,23 @@ Lemma shutdown_leaves_fresh c now m w r : shut (w_mod w m) = Some r ->
   fresh {| k_inc := inc (w_mod w m) + 1; k_bud := bud (w_mod w m); k_nw := nw_bump now (nw (w_mod w m));
            k_hnd := hnd (w_mod w m); k_catch := catchf (w_mod w m) |} false.
 Proof.
-  intros H. unfold shutdown_part. rewrite H. destruct r; cbn [fst w_mod set_fes set_fin set_mod]; rewrite N.eqb_refl; reflexivity.
+  intros H. unfold shutdown_part. rewrite H. cbn [fst]. rewrite ifse_mod. destruct r; cbn [w_mod set_fes set_fin set_mod]; rewrite N.eqb_refl; reflexivity.
+Qed.
+
+(* a panicking Module::reset (it runs under Harness::pass) changes nothing of the shutdown / restart bookkeeping: compared
+   with the same module whose reset does not panic, the world differs in the error list only -- one PanicError more,
+   whatever the stereotype --, and the record in the one reset-panic record *)
+Definition with_rsend (c : modcfg) (b : bool) : modcfg :=
+  {| c_catch := c_catch c; c_stages := c_stages c; c_bud := c_bud c; c_start := c_start c; c_msg := c_msg c;
+     c_tasks := c_tasks c; c_end := c_end c; c_join := c_join c; c_rsend := b |}.
+
+Lemma reset_panic_frame c now m w r : shut (w_mod w m) = Some r ->
+  let wa := fst (shutdown_part (with_rsend c false) now m w) in
+  fst (shutdown_part (with_rsend c true) now m w) = set_err wa (w_err wa ++ [(0, m)]) /\
+  snd (shutdown_part (with_rsend c true) now m w) = snd (shutdown_part (with_rsend c false) now m w) ++ [IResetPanic m].
+Proof.
+  intros H wa. subst wa. unfold shutdown_part. rewrite H. cbn [fst snd c_rsend with_rsend rpanic]. split; [reflexivity|].
+  rewrite <- !app_assoc. cbn [app]. reflexivity.
 Qed.
 
 Lemma Down_fresh m w : Down m w -> w_mod w m = fresh (kept_of (w_mod w m)) false.
